@@ -37,6 +37,12 @@ def main():
             mode = sys.argv[i + 1]
     out = os.path.join(wt, 'OUT')
     res = dict(property=prop, worktree=wt)
+    # the worktree is reset to exactly HEAD + OUT/patch.diff (sub-agents share one git stash across worktrees: do not trust what is left there)
+    sh('git -C %s checkout -- src' % wt)
+    ap = sh('git -C %s apply %s' % (wt, os.path.join(out, 'patch.diff')))
+    if ap.returncode != 0:
+        print('patch.diff does not apply to a clean worktree:', ap.stderr)
+        return 3
     # 1. confirm
     t = sh('cd %s && PYTHONPATH=%s/src /venv/bin/python -m pytest -q -p no:cacheprovider --timeout=900 tests 2>&1 | tail -1' % (wt, wt))
     res['tests_with_change'] = t.stdout.strip()[-200:]
